@@ -297,6 +297,7 @@ def run_file(spec, res):
                      excmsg=str(e)[:200])
             return
         keys = list(f.variables.keys())
+        ratios, headrooms = [], []
         for k in spec['sfckeys'] + spec['laykeys']:
             if k not in keys:
                 problems.append('variable %s not exposed (%s)' % (k, keys))
@@ -315,6 +316,13 @@ def run_file(spec, res):
                 problems.append('%s: read value off by %.3f quantisation '
                                 'steps at %s' % (k, float((err / step)[j]),
                                                  j))
+                fld = exp['orig'][k][j[:-2]].astype('f8')
+                rmax = max(np.abs(np.diff(fld, axis=1)).max(),
+                           np.abs(np.diff(np.append(fld[0, 0],
+                                                    fld[:, 0]))).max())
+                ratios.append(float((err / step)[j]))
+                headrooms.append(float(rmax / 2.0 ** float(
+                    exp['nexp'][k][j[:-2]])))
             # against the reference decoder of the same bytes: only float32
             # accumulation order may differ
             d2 = np.abs(got - ref)
@@ -370,7 +378,8 @@ def run_file(spec, res):
     res.ev(digest(spec), True, ['file', 'nt:%d' % spec['nt']])
     if problems:
         res.viol('arl-file-law-broken', '; '.join(problems[:5]),
-                 problems=problems[:10], nx=spec['nx'], ny=spec['ny'])
+                 problems=problems[:10], nx=spec['nx'], ny=spec['ny'],
+                 ratios=ratios, headrooms=headrooms)
 
 
 def run(spec, res):
